@@ -12,6 +12,8 @@ LEVEL = {
  'C15': ('proof', 'Theorems (all input strings, all output sizes): the transcribed caller-buffer decoders return a non-negative count exactly on valid input that fits, never write at an index >= output_size, report the length implied by size and padding for a null output, and the allocating forms throw codec_error exactly on invalid input. Tie: exhaustive short strings over a mixed alphabet, all two-group padding shapes, every byte in every position, output sizes around the decoded length, under ASan with exact-size buffers.', 'DESIGN.md section 6 C15'),
 }
 LEVEL['C05'] = ('proof', 'Theorems for a parametric small-buffer limit L >= 1 (instantiated with the four limits harvested from the headers): an ownership invariant (short => data() is the object\'s own array with NUL at [size]; long => a live heap block of size+1 cells with NUL at [size] referenced by no other object; every live block owned by a live buffer) holds initially and is re-established by every member (default/copy/move/(ptr,len)/(count,fill) construction, destruction, clear, copy and move assignment incl. self, allocate, allocate(n,fill), user writes); every member returns normally (double free, free of in-object storage, out-of-bounds access, use of released storage are Fault values of the model and are proved unreachable) and changes the abstract values exactly as a plain value store says (a moved-from object keeps SOME valid value); lifted by induction to every finite well-formed history; an observer sees size, content, terminator and storage class; no two objects share storage; end of scope leaves no live block. The transcription (Mem/Buffer.v) is tied to include/st_charbuffer.h by running whole histories (directed size-class products + seeded) for all four element types against the real library under ASan/UBSan with allocation counting, observing every live object after every operation.', 'DESIGN.md section 6 C05')
+LEVEL['C08'] = ('proof', 'Theorems for all strings (size < 2^63-1), ALL start values in the ssize_t range and ALL counts / n below 2^64: the transcribed substr/left/right (mixed signed/unsigned arithmetic with the wrap written out) equal the clamped-range specification and never request an oversized allocation or read outside the string; the three trim walks equal dropWhile on the stated sides for any C-string charset and subjects with embedded NUL; all twelve before/after overloads equal their specifications in both case modes, before ++ occurrence ++ after reassembles the original, overloads agree. Tie: 185k (quick) / 860k (thorough) cases through the real library under ASan: every size class, start in {SSIZE_MIN..SSIZE_MAX boundary set}, counts up to SIZE_MAX, n over 0..2*size+1 and near SIZE_MAX, separators of length 0-3 in all overload forms.', 'DESIGN.md section 6 C08')
+LEVEL['C09'] = ('proof', 'Theorems for all subjects, separators, patterns, replacements and every max_splits: the three transcribed split overloads equal the left-to-right non-overlapping cut specification (at most max+1 pieces; join inverts split for any separator incl. empty; the const char* overload throws unicode_error exactly when the separator has a high byte and a piece is ill-formed, never on well-formed text); tokenize returns exactly the maximal non-empty delimiter-free runs; replace equals the specification with length size + k*(|to|-|from|), its two scans agree (no out-of-bounds write, nothing unwritten) and its re-validation step is characterised exactly; every model terminates (fuel sufficiency). Tie: exhaustive short subjects over an alphabet with NUL/high bytes against separators up to length 3 (150k quick / 1.6M thorough cases) through the real library under ASan with a per-case timeout.', 'DESIGN.md section 6 C09')
 NOTE = {}
 DEFAULT_NOTE = 'Trusted: Coq kernel + VM; translator for tables/constants; ExtrOcamlBasic extraction and the OCaml driver; the C++ harness, g++ and the sanitizers as observers; the C++ semantics of the transcribed statements (LP64, signed char, 32-bit wchar_t) are modelled, not verified. See DESIGN.md section 8.'
 
